@@ -45,6 +45,20 @@ SITES = [
     # ---- Peng kernels (p: 2 x 5)
     _k("ParamPeng", "scatteringFactor", _G, "scattering_factor", ("return", 0), ["k"], (2, 5)),
     _k("ParamPeng", "scatteringFactorK2", _G, "scattering_factor_k2", ("return", 0), ["k2"], (2, 5)),
+    # ---- Peng scaled_parameters: widths /= 2**2 ; potential / projected potential / projected scattering factor rows
+    _k("ParamPeng", "widthDivisor", _I, "PengParametrization.scaled_parameters", ("augassign", "scattering_factor[1]", 0), [], (0, 0)),
+    _k("ParamPeng", "potA", _I, "PengParametrization.scaled_parameters", ("assign", "potential", 0), ["a", "b", "kappa"], (0, 0),
+       path=[0, 0], params_map={"scattering_factor[0]": "a", "scattering_factor[1]": "b", "kappa": "kappa"}),
+    _k("ParamPeng", "potB", _I, "PengParametrization.scaled_parameters", ("assign", "potential", 0), ["b"], (0, 0),
+       path=[0, 1], params_map={"scattering_factor[1]": "b"}),
+    _k("ParamPeng", "projA", _I, "PengParametrization.scaled_parameters", ("assign", "projected_potential", 0), ["a", "b", "kappa"], (0, 0),
+       path=[0, 0], params_map={"scattering_factor[0]": "a", "scattering_factor[1]": "b", "kappa": "kappa"}),
+    _k("ParamPeng", "projB", _I, "PengParametrization.scaled_parameters", ("assign", "projected_potential", 0), ["b"], (0, 0),
+       path=[0, 1], params_map={"scattering_factor[1]": "b"}),
+    _k("ParamPeng", "psfA", _I, "PengParametrization.scaled_parameters", ("assign", "projected_scattering_factor", 0), ["a", "kappa"], (0, 0),
+       path=[0, 0], params_map={"scattering_factor[0]": "a", "kappa": "kappa"}),
+    _k("ParamPeng", "psfB", _I, "PengParametrization.scaled_parameters", ("assign", "projected_scattering_factor", 0), ["b"], (0, 0),
+       path=[0, 1], params_map={"scattering_factor[1]": "b"}),
     # ---- coefficient tables
     dict(gen="ParamTables", name="lobatoTable", file=_D + "lobato.json", shape=(2, 5), emitter="py2lean_param:emit_json_table", modes=["rat"]),
     dict(gen="ParamTables", name="kirklandTable", file=_D + "kirkland.json", shape=(4, 3), emitter="py2lean_param:emit_json_table", modes=["rat"]),
@@ -61,4 +75,5 @@ FINGERPRINTS = {
 EXTRA_IMPORTS = {
     "ParamLobatoR": ["import Mathlib.Analysis.SpecialFunctions.Pow.Real"],
     "ParamKirklandR": ["import Mathlib.Analysis.SpecialFunctions.Pow.Real"],
+    "ParamPengR": ["import Mathlib.Analysis.SpecialFunctions.Pow.Real"],
 }
